@@ -613,6 +613,191 @@ var table = []fn{
 			}
 			return zahl(m), len(a[0].L) == 1
 		}},
+
+	// ---- second batch: more of Duden/Texte, Listen, Mathe
+	{name: "Texte.Lösche_Text", stmt: true, gen: func(t *rapid.T) []V {
+		x := genText(t, "t", 1, 6)
+		return []V{x, genIdx(t, "i", len(rs(x)))}
+	}, expr: func(a []string) string { return "Lösche das Element an der Stelle " + a[1] + " aus " + a[0] },
+		model: func(a []V) (V, bool) {
+			r, i := rs(a[0]), int(a[1].I)
+			return text(string(r[:i-1]) + string(r[i:])), i == 1 || i == len(r)
+		}},
+	{name: "Texte.Lösche_Text_Bereich", stmt: true, gen: func(t *rapid.T) []V {
+		x := genText(t, "t", 1, 6)
+		n := len(rs(x))
+		s := rapid.IntRange(1, n).Draw(t, "s")
+		return []V{x, zahl(int64(s)), zahl(int64(rapid.IntRange(s, n).Draw(t, "e")))}
+	}, expr: func(a []string) string {
+		return "Lösche alle Elemente im Bereich von " + a[1] + " bis " + a[2] + " aus " + a[0]
+	},
+		model: func(a []V) (V, bool) {
+			r, s, e := rs(a[0]), int(a[1].I), int(a[2].I)
+			return text(string(r[:s-1]) + string(r[e:])), s == 1 || e == len(r)
+		}},
+	{name: "Texte.Text_In_Text_Einfügen", stmt: true, gen: func(t *rapid.T) []V {
+		x := genText(t, "t", 1, 6)
+		return []V{x, genIdx(t, "i", len(rs(x))), genText(t, "e", 0, 3)}
+	}, expr: func(a []string) string { return "Setze " + a[2] + " an die Stelle " + a[1] + " von " + a[0] },
+		model: func(a []V) (V, bool) {
+			r, i := rs(a[0]), int(a[1].I)
+			return text(string(r[:i-1]) + a[2].S + string(r[i-1:])), i == 1 || i == len(r)
+		}},
+	{name: "Texte.Buchstabe_In_Text_Einfügen", stmt: true, gen: func(t *rapid.T) []V {
+		x := genText(t, "t", 1, 6)
+		return []V{x, genIdx(t, "i", len(rs(x))), genChar(t, "c")}
+	}, expr: func(a []string) string { return "Setze " + a[2] + " an die Stelle " + a[1] + " von " + a[0] },
+		model: func(a []V) (V, bool) {
+			r, i := rs(a[0]), int(a[1].I)
+			return text(string(r[:i-1]) + a[2].S + string(r[i-1:])), i == 1 || i == len(r)
+		}},
+	{name: "Texte.Text_Vor_Text_Stellen", stmt: true, gen: func(t *rapid.T) []V { return []V{genText(t, "t", 0, 5), genText(t, "e", 0, 3)} },
+		expr: func(a []string) string { return "Stelle " + a[1] + " vor " + a[0] }, model: func(a []V) (V, bool) { return text(a[1].S + a[0].S), a[0].S == "" || a[1].S == "" }},
+	{name: "Texte.Buchstabe_An_Text_Fügen", stmt: true, gen: func(t *rapid.T) []V { return []V{genText(t, "t", 0, 5), genChar(t, "c")} },
+		expr: func(a []string) string { return "Füge " + a[1] + " an " + a[0] + " an" }, model: func(a []V) (V, bool) { return text(a[0].S + a[1].S), a[0].S == "" }},
+	{name: "Texte.Fülle_Text", stmt: true, gen: func(t *rapid.T) []V { return []V{genText(t, "t", 0, 6), genChar(t, "c")} },
+		expr: func(a []string) string { return "Fülle " + a[0] + " mit " + a[1] }, model: func(a []V) (V, bool) {
+			return text(strings.Repeat(a[1].S, len(rs(a[0])))), len(a[0].S) != len(rs(a[0])) || len(a[1].S) > 1
+		}},
+	{name: "Texte.Finde_Subtext", gen: func(t *rapid.T) []V {
+		return []V{genText(t, "t", 0, 8), text(rapid.SampledFrom([]string{"a", "ab", "ä-", "b ", "€", "xa"}).Draw(t, "s"))}
+	},
+		expr: func(a []string) string { return "alle Indizes vom Subtext " + a[1] + " in " + a[0] }, model: func(a []V) (V, bool) {
+			h, n := rs(a[0]), rs(a[1])
+			var idx []int64
+			for i := 0; i+len(n) <= len(h); i++ {
+				if string(h[i:i+len(n)]) == string(n) {
+					idx = append(idx, int64(i+1))
+				}
+			}
+			return zl(idx), len(h) == len(n) || (len(idx) > 0 && idx[len(idx)-1] == int64(len(h)-len(n)+1))
+		}},
+	{name: "Texte.Anzahl_Text_nicht_überlappend", gen: func(t *rapid.T) []V {
+		return []V{genText(t, "t", 0, 8), text(rapid.SampledFrom([]string{"a", "ab", "ä-", "b ", "€", "xa"}).Draw(t, "s"))}
+	},
+		expr: func(a []string) string { return "die Anzahl der nicht überlappenden Subtexte " + a[1] + " in " + a[0] }, model: func(a []V) (V, bool) {
+			c := int64(strings.Count(a[0].S, a[1].S))
+			return zahl(c), c > 0
+		}},
+	{name: "Texte.Spalte_Text", gen: func(t *rapid.T) []V {
+		return []V{genText(t, "t", 1, 8), text(rapid.SampledFrom([]string{"ab", "ä-", "b ", "xa", "-"}).Draw(t, "s"))}
+	},
+		expr: func(a []string) string { return a[0] + " an " + a[1] + " gespalten" }, model: func(a []V) (V, bool) {
+			p := strings.Split(a[0].S, a[1].S)
+			return tl(p), len(p) > 1
+		}},
+	{name: "Texte.Vergleiche_Text(Vorzeichen)", gen: func(t *rapid.T) []V {
+		a := genRunes(t, "a", 0, 5)
+		b := genRunes(t, "b", 0, 5)
+		if rapid.Bool().Draw(t, "common-prefix") {
+			b = append(append([]rune{}, a...), b...)
+			if rapid.Bool().Draw(t, "swap") {
+				a, b = b, a
+			}
+		}
+		return []V{text(string(a)), text(string(b))}
+	}, expr: func(a []string) string { return "das Vorzeichen von (" + a[0] + " mit " + a[1] + " verglichen)" },
+		model: func(a []V) (V, bool) {
+			x, y := rs(a[0]), rs(a[1])
+			for i := 0; i < len(x) && i < len(y); i++ {
+				if x[i] != y[i] {
+					if x[i] > y[i] {
+						return zahl(1), false
+					}
+					return zahl(-1), false
+				}
+			}
+			switch {
+			case len(x) == len(y):
+				return zahl(0), true
+			case len(x) > len(y):
+				return zahl(1), true
+			}
+			return zahl(-1), true
+		}},
+	{name: "Texte.Nter_Buchstabe", gen: func(t *rapid.T) []V {
+		x := genText(t, "t", 1, 6)
+		return []V{genIdx(t, "n", len(rs(x))), x}
+	}, expr: func(a []string) string { return "der " + a[0] + ". Buchstabe von " + a[1] }, model: func(a []V) (V, bool) {
+		return char(rs(a[1])[a[0].I-1]), a[0].I == 1 || int(a[0].I) == len(rs(a[1]))
+	}},
+	{name: "Texte.Erster_Buchstabe", gen: func(t *rapid.T) []V { return []V{genText(t, "t", 1, 5)} },
+		expr: func(a []string) string { return "der erste Buchstabe von " + a[0] }, model: func(a []V) (V, bool) { return char(rs(a[0])[0]), len(rs(a[0])) == 1 }},
+	{name: "Texte.Letzter_Buchstabe", gen: func(t *rapid.T) []V { return []V{genText(t, "t", 1, 5)} },
+		expr: func(a []string) string { return "der letzte Buchstabe von " + a[0] }, model: func(a []V) (V, bool) { r := rs(a[0]); return char(r[len(r)-1]), len(r) == 1 || len(a[0].S) != len(r) }},
+	{name: "Texte.Großschreiben_Wert", gen: func(t *rapid.T) []V { return []V{genText(t, "t", 0, 6)} },
+		expr: func(a []string) string { return a[0] + " groß geschrieben" }, model: func(a []V) (V, bool) { return text(strings.ToUpper(a[0].S)), strings.Contains(a[0].S, "ä") }},
+	{name: "Texte.Kleinschreiben_Wert", gen: func(t *rapid.T) []V { return []V{text(strings.ToUpper(genText(t, "t", 0, 6).S))} },
+		expr: func(a []string) string { return a[0] + " klein geschrieben" }, model: func(a []V) (V, bool) { return text(strings.ToLower(a[0].S)), strings.Contains(a[0].S, "Ä") }},
+	{name: "Texte.Beginnt_Mit_Buchstabe", gen: func(t *rapid.T) []V { return []V{genText(t, "t", 0, 5), genChar(t, "c")} },
+		expr: func(a []string) string { return a[1] + " am Anfang von " + a[0] + " steht" }, model: func(a []V) (V, bool) { return boolean(strings.HasPrefix(a[0].S, a[1].S)), a[0].S == "" }},
+	{name: "Texte.Endet_Mit_Buchstabe", gen: func(t *rapid.T) []V { return []V{genText(t, "t", 0, 5), genChar(t, "c")} },
+		expr: func(a []string) string { return a[1] + " am Ende von " + a[0] + " steht" }, model: func(a []V) (V, bool) { return boolean(strings.HasSuffix(a[0].S, a[1].S)), a[0].S == "" }},
+	{name: "Texte.Enthält_Buchstabe", gen: func(t *rapid.T) []V { return []V{genText(t, "t", 0, 6), genChar(t, "c")} },
+		expr: func(a []string) string { return a[0] + " " + a[1] + " enthält" }, model: func(a []V) (V, bool) { return boolean(strings.Contains(a[0].S, a[1].S)), a[0].S == "" }},
+	{name: "Listen.Einfügen_Bereich", stmt: true, gen: func(t *rapid.T) []V {
+		l := genZL(t, "l", 1, 5)
+		return []V{l, genIdx(t, "i", len(l.L)), genZL(t, "r", 0, 3)}
+	}, expr: func(a []string) string {
+		return "Setze die Elemente in " + a[2] + " an die Stelle " + a[1] + " von " + a[0]
+	},
+		model: func(a []V) (V, bool) {
+			i := int(a[1].I)
+			n := append(append(append([]int64{}, a[0].L[:i-1]...), a[2].L...), a[0].L[i-1:]...)
+			return zl(n), i == 1 || i == len(a[0].L) || len(a[2].L) == 0
+		}},
+	{name: "Listen.Elementweise_Summe", gen: func(t *rapid.T) []V {
+		l := genZL(t, "l", 0, 5)
+		m := make([]int64, len(l.L))
+		for i := range m {
+			m[i] = int64(rapid.IntRange(-4, 4).Draw(t, "m"))
+		}
+		return []V{l, zl(m)}
+	}, expr: func(a []string) string { return "jedes Element aus " + a[0] + " mit " + a[1] + " addiert" },
+		model: func(a []V) (V, bool) {
+			n := make([]int64, len(a[0].L))
+			for i := range n {
+				n[i] = a[0].L[i] + a[1].L[i]
+			}
+			return zl(n), len(n) == 0
+		}},
+	{name: "Listen.Elementweise_Produkt", gen: func(t *rapid.T) []V {
+		l := genZL(t, "l", 0, 5)
+		m := make([]int64, len(l.L))
+		for i := range m {
+			m[i] = int64(rapid.IntRange(-4, 4).Draw(t, "m"))
+		}
+		return []V{l, zl(m)}
+	}, expr: func(a []string) string { return "jedes Element aus " + a[0] + " mit " + a[1] + " multipliziert" },
+		model: func(a []V) (V, bool) {
+			n := make([]int64, len(a[0].L))
+			for i := range n {
+				n[i] = a[0].L[i] * a[1].L[i]
+			}
+			return zl(n), len(n) == 0
+		}},
+	{name: "Listen.Aneinandergehängt_Buchstabe", gen: func(t *rapid.T) []V { return []V{bl(genRunes(t, "l", 0, 6))} },
+		expr: func(a []string) string { return a[0] + " aneinandergehängt" }, model: func(a []V) (V, bool) { return text(strings.Join(a[0].T, "")), len(a[0].T) == 0 }},
+	{name: "Mathe.Max3", gen: func(t *rapid.T) []V {
+		return []V{zahl(int64(rapid.IntRange(-5, 5).Draw(t, "a"))), zahl(int64(rapid.IntRange(-5, 5).Draw(t, "b"))), zahl(int64(rapid.IntRange(-5, 5).Draw(t, "c")))}
+	}, expr: func(a []string) string { return "die größere Zahl von " + a[0] + ", " + a[1] + " und " + a[2] }, model: func(a []V) (V, bool) { return zahl(max(a[0].I, a[1].I, a[2].I)), a[0].I == a[1].I || a[1].I == a[2].I }},
+	{name: "Mathe.Min3", gen: func(t *rapid.T) []V {
+		return []V{zahl(int64(rapid.IntRange(-5, 5).Draw(t, "a"))), zahl(int64(rapid.IntRange(-5, 5).Draw(t, "b"))), zahl(int64(rapid.IntRange(-5, 5).Draw(t, "c")))}
+	}, expr: func(a []string) string { return "die kleinere Zahl von " + a[0] + ", " + a[1] + " und " + a[2] }, model: func(a []V) (V, bool) { return zahl(min(a[0].I, a[1].I, a[2].I)), a[0].I == a[1].I || a[1].I == a[2].I }},
+	{name: "Mathe.Sign", gen: func(t *rapid.T) []V { return []V{zahl(int64(rapid.IntRange(-3, 3).Draw(t, "w")))} },
+		expr: func(a []string) string { return "das Vorzeichen von " + a[0] }, model: func(a []V) (V, bool) {
+			switch {
+			case a[0].I > 0:
+				return zahl(1), false
+			case a[0].I < 0:
+				return zahl(-1), false
+			}
+			return zahl(0), true
+		}},
+	{name: "Mathe.Ist_Teilbar", gen: func(t *rapid.T) []V {
+		return []V{zahl(int64(rapid.IntRange(-20, 40).Draw(t, "a"))), zahl(int64(rapid.IntRange(1, 7).Draw(t, "b")))}
+	},
+		expr: func(a []string) string { return a[0] + " durch " + a[1] + " teilbar ist" }, model: func(a []V) (V, bool) { return boolean(a[0].I%a[1].I == 0), a[0].I <= 0 }},
 }
 
 func byName(n string) *fn {
